@@ -39,7 +39,7 @@ Ev == Trace[l]
 SetOf(q) == {q[i] : i \in 1 .. Len(q)}
 MaxK == 8
 
-CfgOf(e) == [range |-> SetOf(e.range), k |-> MaxK, atomic |-> FALSE, ret |-> TRUE, env |-> TRUE, sparse |-> FALSE]
+CfgOf(e) == [range |-> SetOf(e.range), k |-> MaxK, atomic |-> FALSE, ret |-> TRUE, env |-> TRUE, sparse |-> FALSE, split |-> FALSE]
 
 TraceInit ==
     /\ l = 2 /\ viol = ""
@@ -152,9 +152,25 @@ TrCallTrackerStale ==
                                                     a |-> [uri |-> Ev.uri, valid |-> Ev.valid, rres |-> Ev.r_res, rpc |-> Ev.rpc]]]
                   /\ Frozen)
 
+\* the harness holds the writer lock of the database (a write transaction of its own: what another torrent's resume write
+\* or a CompactDatabase does).  The call line is written AFTER the lock was taken, the ret line BEFORE it is given back:
+\* between the two lines no database-writing step of any call happens (Session!DbHeld disables them), all of them queue up
+\* and run after the ret line.  No obligation of its own: it narrows the interleavings that explain the history.
+TrCallHold ==
+    /\ IsCall("HoldDB") /\ ~DbHeld
+    /\ AtLine("", Begin(Ev.g, "HoldDB", "held", "", 0, [rres |-> "ok"]))
+
+TrRetHold ==
+    /\ Ev.op = "ret" /\ At(Ev.g, "HoldDB", "held")
+    /\ pc' = [pc EXCEPT ![Ev.g] = Idle]
+    /\ Frozen /\ l' = l + 1 /\ UNCHANGED viol
+
 \* --- operations at quiescence: the whole effect happens at the call line, the frame waits for the ret line
 
 OthersIdle == \A c \in Callers : pc[c].op = "idle"
+
+\* number of occurrences of tier x in the tier list q
+Occ(q, x) == Cardinality({i \in 1 .. Len(q) : q[i] = x})
 
 TrCallBump ==
     /\ IsCall("Bump") /\ OthersIdle
@@ -218,7 +234,8 @@ TrackerOut(c) ==
 StepOf(c) ==
     \/ StepAddTake(c)
     \/ StepAddCheck(c)
-    \/ At(c, "Add", "write") /\ Internal(AddWriteViol(c, Rres(c) # "dbwrite"), AddWrite(c, Rres(c) # "dbwrite"))
+    \* (the database-writing steps wait for the holder of the writer lock: judged in the state they really run in)
+    \/ At(c, "Add", "write") /\ ~DbHeld /\ Internal(AddWriteViol(c, Rres(c) # "dbwrite"), AddWrite(c, Rres(c) # "dbwrite"))
     \/ At(c, "Add", "insert") /\ Internal("", AddInsert(c, pc[c].a.stopped))
     \/ At(c, "Add", "started") /\ Internal("", AddStarted(c))
     \/ At(c, "Remove", "detach") /\ Internal("", RemDetach(c))
@@ -227,7 +244,7 @@ StepOf(c) ==
     \/ /\ pc[c].step = "lookup"
        /\ LET found == Rres(c) # "notfound" IN Internal(LookupViol(c, found), LookupUpd(c, found))
     \/ pc[c].op \in {"Start", "Stop"} /\ pc[c].step = "apply" /\ Internal("", FlagApply(c))
-    \/ At(c, "AddTracker", "apply") /\ Internal(TrackerViol(c, TrackerOut(c)), TrackerUpd(c, TrackerOut(c)))
+    \/ At(c, "AddTracker", "apply") /\ (pc[c].a.valid => ~DbHeld) /\ Internal(TrackerViol(c, TrackerOut(c)), TrackerUpd(c, TrackerOut(c)))
     \/ At(c, "AddTracker", "live") /\ Internal("", TrackerLive(c))
 
 TrInternal == \E c \in Callers : StepOf(c)
@@ -270,6 +287,12 @@ ObsViol(e) ==
         ELSE IF \E x \in SetOf(e.byih) : Cardinality(SetOf(x.ids)) # Len(x.ids) THEN "C14.index.duplicate-entry"
         ELSE IF UNION {SetOf(x.ids) : x \in SetOf(e.byih)} # {o.id : o \in live} THEN "C14.index.differs"
         ELSE IF \E x \in SetOf(e.byih), o \in live : o.id \in SetOf(x.ids) /\ o.ih # x.ih THEN "C14.index.wrong-hash"
+        \* @obligation C14.record.tracker-lost  every tracker whose AddTracker call returned without error is in the record
+        \*   (as many times as it was added), however the concurrent calls were scheduled around the writer lock
+        \*   (the tiers of a record are the same multiset on every interleaving: judged before the order-sensitive comparisons)
+        ELSE IF \E o \in dbo : o.id \in DOMAIN db /\ ~db[o.id].bad
+                                /\ \E x \in SetOf(db[o.id].p.tiers) : Occ(o.tiers, x) < Occ(db[o.id].p.tiers, x)
+             THEN "C14.record.tracker-lost"
         ELSE IF {ObsRec(o) : o \in live} # LiveRecs THEN tag \o ".live"
         \* (records damaged by the driver are compared by id only)
         ELSE IF {o.id : o \in dbo} # DOMAIN db THEN tag \o ".db"
@@ -310,7 +333,7 @@ TraceNext ==
     /\ \/ TrInternal
        \/ /\ l <= Len(Trace)
           /\ \/ TrReset \/ TrCallAdd \/ TrCallRemove \/ TrCallFlag \/ TrCallTracker \/ TrCallTrackerStale
-             \/ TrCallBump \/ TrCallClean \/ TrCallCompact \/ TrCallReopen \/ TrRet \/ TrRetAbandoned \/ TrObs \/ TrCrash \/ TrCodec
+             \/ TrCallHold \/ TrRetHold \/ TrCallBump \/ TrCallClean \/ TrCallCompact \/ TrCallReopen \/ TrRet \/ TrRetAbandoned \/ TrObs \/ TrCrash \/ TrCodec
 
 TraceSpec == TraceInit /\ [][TraceNext]_tvars
 
